@@ -54,6 +54,9 @@ func Render(p *Prog, o RenderOpts) map[string]string {
 					var k int
 					fmt.Sscanf(m, "⟦%d⟧", &k)
 					u := l.Uses[k]
+					if u.SpellAs != "" {
+						return u.SpellAs
+					}
 					if o.Spell != nil {
 						if sp := o.Spell(l, u); sp != "" {
 							return sp
